@@ -225,8 +225,8 @@ func checkProbeRecord(p *Prog, r *Report, scan *ssa.Function) {
 								hasScheme = true
 							}
 						}
-						if !hasScheme || !strings.HasPrefix(pieces[0], "S:") {
-							continue // no scheme, or a fixed literal scheme such as the docker client's tcp:// host
+						if !hasScheme || strings.HasPrefix(pieces[0], "L:tcp://") {
+							continue // no scheme, or the docker client's tcp:// host (its scheme comes from WithScheme)
 						}
 						if strings.HasPrefix(pieces[0], "S:") && strings.HasSuffix(pieces[0], ".proto") && strings.HasPrefix(pieces[1], "L:://") {
 							used = true
